@@ -108,6 +108,12 @@ def scope_family() -> list[tuple[str, str, list]]:
     add("helper-uses-global", "count = 0\ndef bump():\n    global count\n    count += 1\n    return count\nmon.write(bump())\n")
     add("helper-defined-after-use-in-helper", "def a():\n    return b() + 1\ndef b():\n    return 2\nmon.write(a())\n", ["helper-calls-later-helper"])
     add("main-loop-variable-used-in-helper", "def grow():\n    global acc\n    acc += 1\nwhile True:\n    acc = 5\n    grow()\n    mon.write(acc)\n", ["main-loop-variable-used-in-helper"])
+    # custom glyphs uploaded from several helpers (and the prologue, and the main loop) to one display: every bitmap table needs a name of its own
+    add("glyphs-from-two-helpers", "lcd = LCD(rs=12, en=11, d4=5, d5=4, d6=3, d7=2)\ndef heart():\n    lcd.glyph(0, [0, 10, 31, 31, 14, 4, 0, 0])\n    lcd.glyph(1, [4, 14, 31, 4, 4, 4, 0, 0])\n"
+        "def bell():\n    lcd.glyph(2, [4, 14, 14, 14, 31, 0, 4, 0])\n    lcd.glyph(3, [31, 17, 17, 17, 17, 17, 31, 0])\nlcd.glyph(4, [1, 2, 4, 8, 16, 8, 4, 2])\nheart()\nbell()\n"
+        "while True:\n    lcd.glyph(5, [21, 10, 21, 10, 21, 10, 21, 10])\n    lcd.glyph(5, [10, 21, 10, 21, 10, 21, 10, 21])\n    heart()\n    sleep(100)\n")
+    add("glyphs-two-displays-two-helpers", "la = LCD(rs=12, en=11, d4=5, d5=4, d6=3, d7=2)\nlb = LCD(i2c_addr=0x27, cols=16, rows=2)\ndef pa(n):\n    la.glyph(0, [n, 10, 31, 31, 14, 4, 0, 0])\n    lb.glyph(0, [4, 14, 31, 4, 4, 4, 0, 0])\n"
+        "def pb():\n    lb.glyph(1, [4, 14, 14, 14, 31, 0, 4, 0])\n    la.glyph(1, [31, 17, 17, 17, 17, 17, 31, 0])\npa(1)\npa(2)\npb()\n")
     add("helper-uses-led", "led = Led(5)\ndef flash():\n    led.on()\n    sleep(5)\n    led.off()\nwhile True:\n    flash()\n")
     add("helper-uses-pot", 'pot = Potentiometer("A0")\ndef level():\n    return pot.read()\nwhile True:\n    mon.write(level())\n')
     add("helper-uses-ultrasonic", "us = Ultrasonic(trig=7, echo=8)\ndef dist():\n    return us.measure_distance()\nwhile True:\n    mon.write(dist())\n", ["ultrasonic-in-helper"])
